@@ -280,8 +280,8 @@ func init() {
 			Only(R14(10, core.PkgGcsemu, core.PkgGcsutil), fns("(*GcsEmu).makeBucketListResults")),
 			Only(R39(), fns("(*GcsEmu).makeBucketListResults")),
 		},
-		Explanation: "Decides (narrow): a malformed page token or maxResults is answered 400 and a missing bucket 404, each followed by return (R17); token encoder and decoder use the same alphabet and message field (R27); the enumeration order the cursor logic relies on must come from an ordered container keyed by the full name (R27 ordering contract); items resolved after the walk are nil-checked before use (R16/R14).",
-		NotDecided:  []string{"completeness, duplicate-freedom, delimiter collapsing, maxResults cut-off, cursor arithmetic: all data dependent", "a page that holds only collapsed prefixes produces no nextPageToken (observed while reading; no structural rule decides it)"},
+		Explanation: "Decides (narrow): a malformed page token or maxResults is answered 400 and a missing bucket 404, each followed by return (R17); token encoder and decoder use the same alphabet and message field (R27); the enumeration order the cursor logic relies on must come from an ordered container keyed by the full name (R27 ordering contract); items resolved after the walk are nil-checked before use (R16/R14); a page cut short by maxResults carries a page token (R84; known finding on the pinned tree), every recorded entry lies behind the page limit (R78), the prefix is never on the inclusive side of the cursor comparison (R67), recorded names carry the prefix and directories are never counted (R58).",
+		NotDecided:  []string{"completeness, duplicate-freedom, delimiter collapsing, maxResults cut-off, cursor arithmetic: all data dependent"},
 		Assumptions: commonAssumptions,
 	}
 	Properties["C12"] = &PropertySpec{
